@@ -15,10 +15,21 @@
      gRPC server   GDecode         grpc-go: decompress by grpc-encoding, unmarshal
                    GAuth           configgrpc.authUnaryServerInterceptor (runs after decoding)
      both          Export          internal/{logs,metrics,trace,profiles}.Receiver.Export: no items -> ack
-                   Consume         next consumer returns the scripted outcome; errors.GetStatusFromError
-                   ToWire          HTTP: errors.GetHTTPStatusCodeFromStatus + writeStatusResponse (Retry-After)
-                                   gRPC: the status travels as it is
+                   Consume         next consumer returns the scripted outcome; errors.GetStatusFromError;
+                                   HTTP: errors.GetHTTPStatusCodeFromStatus + writeStatusResponse (Retry-After),
+                                   gRPC: the status travels as it is (one action: nothing can interleave)
      client side   Classify        otlpexporter.processError / otlphttpexporter.export
+     scripted peer Stub            not collector code: an HTTP server that answers the status it is told, so
+                                   that the exporter also sees the statuses the real receiver never produces
+
+   Named deviations / notes:
+     - Auth and Decode answer through the receiver's errorHandler with the status they report (401 / 400)
+       whatever the request's Content-Type is.  Before commit 4fb83e83e the code answered 500 there for a
+       Content-Type other than protobuf / JSON; the check found that on the real code (clause
+       RejectedNeverConsumed) and the machine describes the repaired behaviour.
+     - the gRPC server's message size limit and the HTTP/2 framing are not modelled; TLS is off.
+     - the payload is an opaque tag: equality at the consumer is sampled by the driver (srv.consumed and
+       the driver's byte comparison), not derived by the machine.
 
    The byte-level part is arithmetic over stream lengths: a stream is [n |-> deliverable bytes,
    err |-> ends with an error instead of EOF]; http.MaxBytesReader(c) delivers at most c bytes and
@@ -115,8 +126,13 @@ Send(r) ==
     /\ pc = "idle"
     /\ req' = r
     /\ body' = [n |-> r.w, err |-> FALSE]
-    /\ pc' = IF r.transport = "http" THEN "auth" ELSE "gdecode"
+    /\ pc' = IF r.recv = "stub" THEN "stub" ELSE IF r.transport = "http" THEN "auth" ELSE "gdecode"
     /\ UNCHANGED <<srv, resp, cls>>
+
+Stub ==                                                     \* scripted HTTP peer (not collector code): answers as told
+    /\ pc = "stub"
+    /\ Answer(HttpResp(req.stub.status, IF req.stub.status < 300 THEN "OK" ELSE "UNKNOWN", req.stub.ra))
+    /\ UNCHANGED <<req, body, srv, cls>>
 
 Auth ==                                                     \* confighttp.authInterceptor
     /\ pc = "auth"
@@ -197,8 +213,8 @@ Classify ==                                                 \* the exporter inte
     /\ pc' = "done"
     /\ UNCHANGED <<req, body, srv, resp>>
 
-Next == \/ \E r \in Requests : Send(r)
-        \/ Auth \/ RawLimit \/ Decode \/ HandlerProbe \/ HandlerOtlp
+Next == \/ (pc = "idle" /\ \E r \in Requests : Send(r))     \* guard first: Requests is large
+        \/ Stub \/ Auth \/ RawLimit \/ Decode \/ HandlerProbe \/ HandlerOtlp
         \/ GDecode \/ GAuth \/ Export \/ Consume \/ Classify
 
 Spec == Init /\ [][Next]_vars
